@@ -212,6 +212,8 @@ static const char* kStorage = "s";
 
 static RunOut run_hist(const Hist& h, bool want_canon, bool full_oracles) {
     RunOut out;
+    auto describe = [&h]() { return hist_str(h); };
+    hm::CrashScope crash_scope(describe);
     ykc::sequential_teardown_mode();
     ykc::reset_library_statics();
     ykalloc::clear_errors();
@@ -367,6 +369,7 @@ static void print(const Report& r) {
 static Report bfs(const std::string& part, const std::string& seed, const std::vector<OpC>& alphabet, int max_depth, double deadline) {
     Report rp;
     rp.part = part;
+    hm::crash_part(part, "seq");
     double t0 = ykmc::mono_now();
     std::unordered_set<Key128, Key128H> seen;
     std::deque<Hist> frontier;
@@ -429,6 +432,7 @@ static std::vector<OpC> alphabet_for(const std::vector<std::string>& keys) {
     std::vector<OpC> a;
     for (auto& k : keys) {
         a.push_back({O_PUT, k, 1});
+        a.push_back({O_PUT, k, 3}); // a second upsert value: overwriting a stored value with a different one must be visible
         a.push_back({O_UPUT, k, 2});
         a.push_back({O_GET, k, 0});
         a.push_back({O_REMOVE, k, 0});
@@ -438,6 +442,7 @@ static std::vector<OpC> alphabet_for(const std::vector<std::string>& keys) {
 
 int main(int argc, char** argv) {
     hm::Args a = hm::parse(argc, argv);
+    hm::install_crash_reporter("ykseq");
     std::string part = a.extra.empty() ? "all" : a.extra[0];
     if (a.oracle != "all") {
         g_oracles = 0;
@@ -512,6 +517,7 @@ int main(int argc, char** argv) {
             if (!mine()) continue;
             Report rp;
             rp.part = "reinsert/" + sh.name;
+            hm::crash_part(rp.part, "seq");
             double s0 = ykmc::mono_now();
             std::set<std::string> ks(sh.inserts.begin(), sh.inserts.end());
             std::vector<std::string> v(ks.begin(), ks.end());
@@ -548,6 +554,7 @@ int main(int argc, char** argv) {
         if (mine()) {
             Report rp;
             rp.part = "binary";
+            hm::crash_part(rp.part, "seq");
             double s0 = ykmc::mono_now();
             std::vector<std::string> keys;
             for (int off = 0; off <= 16; ++off) {
